@@ -3,6 +3,7 @@ from hypothesis import strategies as st
 from metapype.eml import validate
 from metapype.eml.exceptions import MetapypeRuleError
 from metapype.model.node import Node
+from vf.shipped import RULES
 
 from vf import treegen
 from vf.runner import Violation, hyp_search
@@ -166,7 +167,7 @@ def with_twins(draw, base):
 
     def enums_of(s):
         rn = R.node_mappings.get(s["n"])
-        return [(a, v[1:]) for a, v in (R.rules_dict[rn][0].items() if rn in R.rules_dict else []) if len(v) > 1]
+        return [(a, v[1:]) for a, v in (RULES[rn][0].items() if rn in RULES else []) if len(v) > 1]
     if kind == "attr-value":
         with_enum = [(p, s) for p, s in cands if enums_of(s)]
         if with_enum:
